@@ -1,4 +1,4 @@
-\* C04 thorough (model checking only, 1): 2 threads, <= 3 spans (verdict free), <= 4 frames, 1 task, nesting <= 2, all forms, incoming trace+span ids, async-fn spans.
+\* C04 thorough (model checking only, 1): 2 threads, <= 3 spans (verdict free), <= 4 frames, 1 task, nesting <= 2, all forms, incoming trace+span ids, async-fn spans. (panics and cancellation are in the other configurations)
 SPECIFICATION SSpec
 CONSTANTS
     NThreads = 2
@@ -11,11 +11,15 @@ CONSTANTS
     MaxFrames = 4
     MaxTasks = 1
     MaxDepth = 2
-    Panics = TRUE
+    Panics = FALSE
+    Discards = FALSE
     MaxSpans = 3
     IncomingKinds <- MC_IncBoth
     WithLazy = TRUE
-    WithCancel = TRUE
+    HasRng = TRUE
+    ExplicitKinds <- MC_ExNone
+    PushLastWins = TRUE
+    WithCancel = FALSE
     CancelOwnIds = FALSE
     CtxForms <- MC_Forms
     Emit = FALSE
